@@ -143,8 +143,35 @@ def analyse_builder(ctx, rule_san, rule_tile, rule_ts):
     suffix_paths = [p for p in paths(hdr, lambda y: y in cfg.returns, True)]
     ctx.count("builder_iteration_paths", len(iter_paths))
 
+    def resolve_on_path(e, prefix, depth=0):
+        """path-sensitive value: a join variable takes the value of its definition that lies latest on the path"""
+        if not isinstance(e, tuple) or not e or depth > 6:
+            return e
+        if e[0] == "phi":
+            best = None
+            for d in hb.defs().get(e[1], []):
+                if d[1] in prefix:
+                    pos = len(prefix) - 1 - prefix[::-1].index(d[1])
+                    if best is None or pos > best[0]:
+                        best = (pos, d)
+            if best is None:
+                return e
+            kind, dbi, dsi, node = best[1]
+            v = sy.rvalue(node["rv"]) if kind == "assign" else sy.call_expr(node, dbi)
+            return resolve_on_path(v, prefix[:best[0] + 1], depth + 1)
+        return tuple(resolve_on_path(x, prefix, depth) if isinstance(x, tuple) else x for x in e)
+
     def seq(path):
-        return [by_block[b_] for b_ in path if b_ in by_block]
+        out_ = []
+        for i_, b_ in enumerate(path):
+            if b_ in by_block:
+                ev = by_block[b_]
+                if ev.kind == "S":
+                    # the loop header itself (path[0]) carries the values of the previous iteration: not part of the prefix
+                    pre = path[1:i_ + 1]
+                    ev = Ev(ev.bi, ev.kind, resolve_on_path(ev.a, pre), resolve_on_path(ev.b, pre) if ev.b is not None else None, ev.term)
+                out_.append(ev)
+        return out_
 
     # cursor: the loop-carried local used as the first start
     def cursor_info():
@@ -333,7 +360,7 @@ def span_arithmetic(ctx, rule):
                     ctx.fail(rule, key, where(b, bi, st), "a WordMatch is built with subslice.0 = %s: the span does not start at the first "
                              "character of the word" % (S.show(ss[3][0], b) if ss[0] == "agg" else "?"),
                              {"witness": "highlight starts inside the word"})
-    ctx.floor(rule, "wordmatch_constructions", n, 4)
+    ctx.floor(rule, "wordmatch_constructions", n, 2)
 
 
 def new_pair_guards(ctx, rule):
